@@ -52,7 +52,15 @@ func (i *interpreter) spawn(fr *frame, pos token.Pos, fn value, args []value) *g
 		g.name = f.Fn.String()
 	}
 	if len(i.gs) >= i.cfg.MaxGoroutines {
-		i.inconclusive("goroutine budget exceeded")
+		h := map[string]int{}
+		for _, x := range i.gs {
+			st := "done"
+			if !x.done {
+				st = "live:" + x.why
+			}
+			h[x.name+" ["+st+"]"]++
+		}
+		i.inconclusive(fmt.Sprintf("goroutine budget exceeded: %v", h))
 	}
 	i.gs = append(i.gs, g)
 	i.wg.Add(1)
